@@ -1,6 +1,8 @@
 (* Props/C11.v — Intercepted flows are held until resumed, killed flows are never forwarded. *)
 From Coq Require Import List Bool Arith.
 From MV Require Import Model.LayerCore Model.FlowControl Proofs.LayerCore Proofs.FlowControl.
+From MV Require Import Gen.WatchdogCond Model.Watchdog Proofs.Watchdog Proofs.FlowHold.
+From Coq Require Import ZArith.
 Import ListNotations.
 
 (* In every reachable state of a flow (any sequence of intercept / resume / kill / hook-wait /
@@ -56,6 +58,23 @@ Theorem C11_relay_skeleton : forall (me ctr k i : nat),
      let '(_, out, _) := process me (kont (Some v)) in out = [mkCmd (ctr + 1) TAG_SEND NotBlocking]).
 Proof. exact relay_holds. Qed.
 Print Assumptions C11_relay_skeleton.
+
+(* Connection level: the hooks of all flows of a connection run concurrently inside the idle watchdog's
+   disarm(); on every schedule of activity, hook starts and ends in any order, clock advances and watcher
+   wake-ups, the connection is not timed out while some hook (an intercepted flow) is still pending.
+   The watcher's sleep argument and firing test are regenerated from proxy/server.py on every run. *)
+Theorem C11_held_connection_not_timed_out : forall (T t0 : Z) (evs : list wevent) (e : wevent),
+  let s := run (init T t0) evs in
+  let p := spec_run (spec_init t0) evs in
+  is_fired s = false -> (0 < s_pending p)%Z -> is_fired (step s e) = false.
+Proof. exact held_connection_not_timed_out. Qed.
+Print Assumptions C11_held_connection_not_timed_out.
+
+Theorem C11_held_beside_other_nonvacuous :
+  is_fired (run (init 10 0) held_beside_other) = false /\
+  s_pending (spec_run (spec_init 0) held_beside_other) = 1%Z.
+Proof. exact held_beside_other_ok. Qed.
+Print Assumptions C11_held_beside_other_nonvacuous.
 
 Theorem C11_nonvacuous :
   hp (frun fl0 [Intercept; HookWait; LoopStep; Intercept]) = HWaiting /\
